@@ -11,6 +11,7 @@ import (
 	"github.com/ClickHouse/ch-go/proto"
 
 	"verif/checks/seq/reg"
+	"verif/checks/seq/regtab"
 	"verif/refcol"
 	"verif/refwire"
 	"verif/vk"
@@ -246,9 +247,115 @@ func newHist16(e reg.Entry, rev int) (*hist16, error) {
 	return h, nil
 }
 
+// c16Big: histories with a value longer than the 1 MiB step in which decoders allocate
+// strings whose length came from the wire, on columns that already hold (or held) smaller
+// data: all histories of <= n operations over {append a small value, Reset, decode a small
+// block, decode a block whose LAST row is big, decode a block whose only row is big, encode}.
+func c16Big(c *vk.Ctx) {
+	rev := 54460
+	big := make([]byte, 1<<20+11)
+	for i := range big {
+		big[i] = byte('A' + i%23)
+	}
+	small := []byte("row-data")
+	type bcase struct {
+		label            string
+		smallV, bigV, sV any
+	}
+	cases := []bcase{
+		{"String", small, big, []byte("s")},
+		{"Array(String)", []any{small, []byte("x")}, []any{[]byte("y"), big}, []any{}},
+		{"LowCardinality(String)", small, big, []byte("s")},
+		{"Nullable(String)", small, big, nil},
+	}
+	n := 3
+	if !c.Quick() {
+		n = 4
+	}
+	var cnt int64
+	for _, bc := range cases {
+		e, ok := regtab.ByLabel(bc.label)
+		if !ok {
+			panic("C16: no registry entry " + bc.label)
+		}
+		opNames := []string{"append-small", "reset", "decode-small", "decode-small+big", "decode-big", "encode"}
+		var rec func(path []int)
+		rec = func(path []int) {
+			if len(path) > 0 {
+				cnt++
+				id := fmt.Sprintf("big/%s/%v", bc.label, path)
+				if (c.Only == "" && c.Mine(cnt)) || c.Only == id {
+					c.Current(id)
+					names := []string{}
+					msg, fn := vk.Recover(func() {
+						h, err := newHist16(e, rev)
+						if err != nil {
+							return
+						}
+						for _, oi := range path {
+							names = append(names, opNames[oi])
+							var oerr error
+							switch oi {
+							case 0:
+								h.appendIdx(1)
+							case 1:
+								h.col.C.Reset()
+								h.model = nil
+							case 2:
+								oerr = h.decode([]any{bc.sV, bc.smallV}, false)
+							case 3:
+								oerr = h.decode([]any{bc.smallV, bc.sV, bc.bigV}, false)
+							case 4:
+								oerr = h.decode([]any{bc.bigV}, false)
+							case 5:
+								_, oerr = encodeBlock1(h.col.C, "col", rev, nil)
+							}
+							if oerr != nil {
+								c.Violation("C16/big/op-failed/"+opNames[oi]+"/"+bc.label, id, fmt.Sprintf("history %v: %v", names, oerr), nil)
+								return
+							}
+						}
+						if h.col.C.Rows() != len(h.model) {
+							c.Violation("C16/big/rows/"+bc.label, id, fmt.Sprintf("history %v: Rows()=%d, model has %d", names, h.col.C.Rows(), len(h.model)), nil)
+							return
+						}
+						if got := rowsCanon(h.col); !refcol.Equal(anyList(got), anyList(h.model)) {
+							c.Violation("C16/big/row-values/"+bc.label, id, fmt.Sprintf("history %v: the column does not hold what the last decode / appends put there (a value of 1 MiB + 11 bytes is involved)", names), nil)
+							return
+						}
+						b1, err := encodeBlock1(h.col.C, "col", rev, nil)
+						if err != nil {
+							c.Violation("C16/big/encode-error/"+bc.label, id, err.Error(), nil)
+							return
+						}
+						r := refwire.NewR(b1)
+						_, rows, cols := refcol.DecodeBlockBody(r, rev)
+						if r.Err != nil || r.Left() != 0 || rows != len(h.model) || len(cols) != 1 || !refcol.Equal(anyList(cols[0].Vals), anyList(h.model)) {
+							c.Violation("C16/big/encoding-does-not-reflect-contents/"+bc.label, id, fmt.Sprintf("history %v: the encoded block does not hold the logical contents (ref err %v)", names, r.Err), nil)
+						}
+					})
+					if msg != "" {
+						c.Violation("C16/big/panic/"+fn+"/"+bc.label, id, fmt.Sprintf("history %v: %s", names, msg), nil)
+					}
+					c.Eval("histories with a value above 1 MiB", 1)
+					c.AddStates(0, int64(len(path)), 1)
+				}
+			}
+			if len(path) == n {
+				return
+			}
+			for oi := range opNames {
+				rec(append(append([]int{}, path...), oi))
+			}
+		}
+		rec(nil)
+	}
+}
+
 // C16 — reused columns carry nothing over: reset+decode and re-encode are exact.
 func C16(c *vk.Ctx) {
-	c.Rule("explicit-state breadth-first search over operation histories on the real column object, for each of 21 compositions (thorough: every registry composition of depth <= 1): alphabet {Append of 3 different values, Reset, EncodeBlock (Prepare + state + data), WriteBlock+Flush, DecodeBlock of 0 / 2 / 3 rows holding other values (other dictionary; for LowCardinality also with keys written wider than necessary, which is valid on the wire), truncated DecodeBlock followed by Reset, Prepare where the column has it, Infer of its own type where inferable, and for the name-based enum column Infer of another definition of the same names (the model's numbers follow the definition in force)}; histories to depth 5 (thorough 6), a history is expanded only when the full-object fingerprint (every field, exported or not) together with the model state is new; successors are built by replaying the path on a fresh object. Oracle after every history: Rows()/Row(i) equal the list model, a fresh EncodeBlock decoded by the reference model equals the list model, and encoding twice gives the same bytes. states = distinct (object fingerprint, model) pairs; transitions = operations executed.")
+	defer c16Big(c)
+	c.Rule("explicit-state breadth-first search over operation histories on the real column object, for each of 21 compositions (thorough: every registry composition of depth <= 1): alphabet {Append of 3 different values, Reset, EncodeBlock (Prepare + state + data), WriteBlock+Flush, DecodeBlock of 0 / 2 / 3 rows holding other values (other dictionary; for LowCardinality also with keys written wider than necessary, which is valid on the wire), truncated DecodeBlock followed by Reset, Prepare where the column has it, Infer of its own type where inferable, and for the name-based enum column Infer of another definition of the same names (the model's numbers follow the definition in force)}; histories to depth 5 (thorough 6), a history is expanded only when the full-object fingerprint (every field, exported or not) together with the model state is new; successors are built by replaying the path on a fresh object. Oracle after every history: Rows()/Row(i) equal the list model, a fresh EncodeBlock decoded by the reference model equals the list model, and encoding twice gives the same bytes. Plus, for String / Array(String) / LowCardinality(String) / Nullable(String): all histories of <= 3 (thorough 4) operations over {append small, Reset, decode small block, decode a block whose last row has 1 MiB + 11 bytes, decode a block whose only row has, encode} with the same oracle. states = distinct (object fingerprint, model) pairs; transitions = operations executed.")
 	depth := 5
 	if !c.Quick() {
 		depth = 6
